@@ -84,6 +84,18 @@ class G:
             else:
                 mk = "var %s; switch ((%s = function () { return [%s, typeof %s]; }), 1) { case 1: break; }" % (g, g, self.expr(vars_, 1), v)
             return "%s log(%d, %s()); %s log(%d, %s(), typeof %s, %s);" % (mk, self.r.randint(1000, 9999), g, upd, self.r.randint(1000, 9999), g, v, v)
+        if r < 0.31 and "bare-block" not in self.avoid:
+            # bare blocks: alone, as siblings, nested, empty - statement lists of sibling blocks must stay separate
+            k = self.r.random()
+            a1 = self.stmts(list(vars_), d - 1, in_loop, in_func, n=self.r.randint(1, 2))
+            if k < 0.3:
+                return "{ " + a1 + " }"
+            a2 = self.stmts(list(vars_), d - 1, in_loop, in_func, n=self.r.randint(1, 2))
+            if k < 0.6:
+                return "{ { " + a1 + " } { " + a2 + " } }"
+            if k < 0.8:
+                return "{ { " + a1 + " } {} { { " + a2 + " } } log(" + str(self.r.randint(1000, 9999)) + ", 0); { " + self.stmts(list(vars_), d - 1, in_loop, in_func, n=1) + " } }"
+            return "{ " + a1 + " } { " + a2 + " }"
         if r < 0.34:
             v = self.fresh("v")
             s = "var " + v + " = " + self.expr(vars_) + ";"
@@ -268,6 +280,11 @@ def closure_probes():
                       "function id(x) { return x; } function one() { return 1; } function two() { return 2; } function K1() { this.tag = 'k1'; } function K2() { this.tag = 'k2'; }\n"
                       "function f() { var tmp, arr = [10, 20, 30], obj = {p: 'P', q: 'Q'}, obj2 = {p: 'P2'}; var vv = %s; var g = %s; var before = g(); vv = %s; return [before, g()]; } log(f());"
                       % (i1, mk % e, i2)))
+    P.append(("sibling-blocks-in-loop", "var out = []; for (var i = 0; i < 3; i++) { { out.push('a' + i); } { if (i === 1) continue; out.push('b' + i); } } log(out);"))
+    P.append(("sibling-blocks-in-if", "var out = []; if (true) { { out.push(1); } { out.push(2); } { { out.push(3); } { out.push(4); } } } log(out);"))
+    P.append(("sibling-blocks-closures", "function f() { var n = 0, fs = []; { { fs.push(function () { n++; return 'A' + n; }); } { fs.push(function () { n++; return 'B' + n; }); } } return [fs.length, fs[0](), fs[1](), n]; } log(f());"))
+    P.append(("sibling-blocks-labelled", "var out = []; lab: { { out.push('x'); } { out.push('y'); break lab; } { out.push('z'); } } log(out);"))
+    P.append(("sibling-blocks-in-function-and-switch", "function g(k) { var out = []; { out.push(0); } { out.push(1); } switch (k) { case 1: { out.push('c1'); } { out.push('c1b'); } break; default: { { out.push('d'); } { out.push('e'); } } } return out; } log(g(1), g(2));"))
     P.append(("left-to-right",
               "function t(k){ log(k); return k; } var o = {m: function(a, b){ return a + b; }}; log(t(1) + t(2) * t(3), o.m(t(4), t(5)), [t(6), t(7)][t(0)], t(8) < t(9), (t(10), t(11)));"))
     P.append(("assignment-order",
